@@ -693,6 +693,7 @@ type input struct {
 	ex     string // exemplar name ("" for short strings)
 	mut    string // mutation description
 	bz     []byte
+	lazy   func() []byte // materialised by the worker (keeps the big substitution families out of memory)
 	// expectations for the structured unknown-field / oversize mutations
 	mustReject   bool   // lib.Unmarshal into the target must fail
 	unknownClass string // class for the report when the decoder accepts an unknown field
@@ -702,7 +703,7 @@ var lenVals = []uint64{0, 1 << 31, 1<<32 - 1, 1 << 63}
 var subVals = []byte{0x00, 0x01, 0x7f, 0x80, 0xff}
 var unknownField = []byte{0xc0, 0x3e, 0x01} // field 1000, varint 1
 
-func genInputs(ex exemplar, thoroughPairs bool) (out []input) {
+func genInputs(ex exemplar, pairWindow int) (out []input) {
 	b := ex.bz
 	for i := 0; i < len(b); i++ {
 		out = append(out, input{target: ex.target, ex: ex.name, mut: fmt.Sprintf("truncate@%d", i), bz: b[:i]})
@@ -712,19 +713,25 @@ func genInputs(ex exemplar, thoroughPairs bool) (out []input) {
 			if b[i] == v {
 				continue
 			}
-			m := bytes.Clone(b)
-			m[i] = v
-			out = append(out, input{target: ex.target, ex: ex.name, mut: fmt.Sprintf("byte@%d=%02x", i, v), bz: m})
+			i, v := i, v
+			out = append(out, input{target: ex.target, ex: ex.name, mut: fmt.Sprintf("byte@%d=%02x", i, v), lazy: func() []byte {
+				m := bytes.Clone(b)
+				m[i] = v
+				return m
+			}})
 		}
 	}
-	if thoroughPairs {
+	if pairWindow > 0 {
 		for i := 0; i < len(b); i++ {
-			for j := i + 1; j < len(b) && j < i+9; j++ {
+			for j := i + 1; j < len(b) && j <= i+pairWindow; j++ {
 				for _, v := range subVals {
 					for _, u := range subVals {
-						m := bytes.Clone(b)
-						m[i], m[j] = v, u
-						out = append(out, input{target: ex.target, ex: ex.name, mut: fmt.Sprintf("bytes@%d=%02x,@%d=%02x", i, v, j, u), bz: m})
+						i, j, v, u := i, j, v, u
+						out = append(out, input{target: ex.target, ex: ex.name, mut: fmt.Sprintf("bytes@%d=%02x,@%d=%02x", i, v, j, u), lazy: func() []byte {
+							m := bytes.Clone(b)
+							m[i], m[j] = v, u
+							return m
+						}})
 					}
 				}
 			}
@@ -933,7 +940,14 @@ func runDecoders(r *mc.Run, w *world, rep *decodeReport) {
 	inputs = append(inputs, input{target: "bft.Message", ex: "hand-minimised", mut: "drop-everything-but(header.phase=ELECTION,qc={})", bz: []byte{0x0a, 0x02, 0x30, 0x01, 0x1a, 0x00}})
 	for _, e := range ex {
 		exemplarBytes[e.name] = len(e.bz)
-		inputs = append(inputs, genInputs(e, pairSet[e.name])...)
+		win := 0
+		if !r.Quick() {
+			win = 2
+			if pairSet[e.name] {
+				win = 8
+			}
+		}
+		inputs = append(inputs, genInputs(e, win)...)
 	}
 	for d := 0; d <= 40; d++ {
 		inputs = append(inputs, input{target: "QuorumCertificate", ex: "qc:nested", mut: fmt.Sprintf("nested-certificates-depth=%d", d), bz: nestedCertificates(w, d)})
@@ -1025,6 +1039,9 @@ func runDecoders(r *mc.Run, w *world, rep *decodeReport) {
 			in = shortAt(i - leadInputs)
 		default:
 			in = inputs[i-nShort]
+		}
+		if in.lazy != nil {
+			in.bz = in.lazy()
 		}
 		c.slot.desc.Store(slotDesc{in.target, in.ex, in.mut, in.bz}.String)
 		t0 := time.Now()
